@@ -35,6 +35,7 @@ THEOREMS = [
     'Pyiga.Props.C10.blocked_numbering_injective',
     'Pyiga.Props.C10.dirichlet_bcs_once',
     'Pyiga.Props.C10.multipatch_bcs_once',
+    'Pyiga.Props.C10.drop_nans_spec',
     'Pyiga.Props.C10.initial_condition_01',
     'Pyiga.Props.C10.boundary_dofs_spec',
     'Pyiga.Props.C10.boundary_dofs_count',
@@ -218,14 +219,14 @@ def gen_rls(ctx):
                        Bsparse=bool(rng.integers(0, 2)), bkind='list' if rng.integers(0, 6) == 0 else 'array')
 
     # exhaustive: every ordered subset of range(n), n <= 4 (includes empty, all-but-one, all dofs, every order)
-    reps = 4 if ctx.tier == 'quick' else 20
+    reps = 8 if ctx.tier == 'quick' else 20
     for n in range(1, 5):
         for k in range(0, n + 1):
             for idx in itertools.permutations(range(n), k):
                 for _ in range(reps):
                     cases.append((mk(n, list(idx)), 'exh'))
     # random larger systems, random order
-    nrand = 1800 if ctx.tier == 'quick' else 20000
+    nrand = 5000 if ctx.tier == 'quick' else 20000
     for _ in range(nrand):
         n = int(rng.integers(5, 9))
         mode = int(rng.integers(0, 8))
@@ -234,7 +235,7 @@ def gen_rls(ctx):
         m = n if rng.integers(0, 3) else int(rng.integers(1, 9))
         cases.append((mk(n, idx, m=m), 'rand'))
     # malformed: expected outcome is the error kind
-    nbad = 400 if ctx.tier == 'quick' else 3000
+    nbad = 1000 if ctx.tier == 'quick' else 3000
     for _ in range(nbad):
         n = int(rng.integers(1, 8))
         k = int(rng.integers(1, n + 1))
@@ -456,10 +457,14 @@ def greville_points(kvs, N, index):
 
 
 def run(ctx):
+    import time
+    t0 = time.time()
     ctx.build_repo()
     from pyiga import assemble, bspline, geometry, approx
     ctx.require_lean(['Pyiga.Props.C10', 'drv_c10'])
+    ctx.extra['t_build_s'] = round(time.time() - t0, 1); t0 = time.time()
     ctx.audit(['Pyiga.Props.C10'], THEOREMS, MODULES)
+    ctx.extra['t_audit_s'] = round(time.time() - t0, 1); t0 = time.time()
     if ctx.tier == 'thorough':
         ctx.leanchecker(MODULES)
     ctx.trusted += [
@@ -483,7 +488,7 @@ def run(ctx):
                 'slice_indices: all shapes with 1-3 axes of size 1..4, every axis, idx in [-n-1, n], every flip tuple, ravel on/off; boundary_dofs/cells on make_knots spaces, '
                 'all (ax, side), face names and invalid specs. combine_bcs/_drop_nans on random overlapping index arrays. compute_dirichlet_bc(s), Multipatch.compute_dirichlet_bcs, '
                 'compute_initial_condition_01 on unit line/square/cube patches with constant / linear / vector / NaN data. '
-                'non-trivial = system with >=1 eliminated and >=1 free dof, or face of a >=2-axis shape; distinct by request' % (4 if ctx.tier == 'quick' else 20))
+                'non-trivial = system with >=1 eliminated and >=1 free dof, or face of a >=2-axis shape; distinct by request' % (8 if ctx.tier == 'quick' else 20))
     rng = ctx.rng
     req, exp, meta = [], [], []
 
@@ -566,7 +571,7 @@ def run(ctx):
     ctx.count('boundary_dofs/cells requests', nbd)
 
     # ------------------------------------------------------------ (C) combine_bcs / _drop_nans
-    ncomb = 1500 if ctx.tier == 'quick' else 10000
+    ncomb = 3000 if ctx.tier == 'quick' else 10000
     for _ in range(ncomb):
         k = int(rng.integers(1, 5))
         bcs = []
@@ -650,7 +655,7 @@ def run(ctx):
                 ok = False
         float_checks.append((what, ok, replay))
 
-    ndbc = 120 if ctx.tier == 'quick' else 800
+    ndbc = 200 if ctx.tier == 'quick' else 800
     for t in range(ndbc):
         d = int(rng.integers(2, 4)) if t % 8 else 1
         kvs, geo = patch(d)
@@ -696,11 +701,12 @@ def run(ctx):
                     body = ' '.join('%s %s' % ('-' if nc is None else str(nc), fvec(own_coeffs(kvs, geo, fc, g))) for fc in faces)
                 except Exception:
                     continue
-                add('dbcsall %s %d %s' % (plist(N), len(faces), body), f, ('dbcs', dict(rp, bdspec='all')))
+                rp2 = dict(rp, bdspec='all')
+                add('dbcsall %s %d %s' % (plist(N), len(faces), body), f, ('dbcs', rp2))
                 try:
-                    greville_oracle('compute_dirichlet_bcs(all)', kvs, assemble.compute_dirichlet_bcs(kvs, geo, ('all', g)), ev, nc, rp)
+                    greville_oracle('compute_dirichlet_bcs(all)', kvs, assemble.compute_dirichlet_bcs(kvs, geo, ('all', g)), ev, nc, rp2)
                 except Exception:
-                    float_checks.append(('compute_dirichlet_bcs raised', False, rp))
+                    float_checks.append(('compute_dirichlet_bcs raised', False, rp2))
             else:
                 k = int(rng.integers(1, len(faces) + 1))
                 chosen = [faces[i] for i in rng.permutation(len(faces))[:k]]
@@ -711,11 +717,16 @@ def run(ctx):
                     body = ' '.join(cond_tokens(kvs, geo, fc, g, nc) for fc in chosen)
                 except Exception:
                     continue
-                add('dbcs %s %d %s' % (plist(N), k, body), f, ('dbcs', dict(rp, bdspec=chosen)))
+                rp2 = dict(rp, bdspec=chosen)
+                add('dbcs %s %d %s' % (plist(N), k, body), f, ('dbcs', rp2))
+                try:
+                    greville_oracle('compute_dirichlet_bcs', kvs, assemble.compute_dirichlet_bcs(kvs, geo, conds), ev, nc, rp2)
+                except Exception:
+                    float_checks.append(('compute_dirichlet_bcs raised', False, rp2))
             ctx.case(req[-1]); ctx.count('dbcs')
 
     # Multipatch index translation
-    nmp = 30 if ctx.tier == 'quick' else 300
+    nmp = 60 if ctx.tier == 'quick' else 300
     for t in range(nmp):
         kvs, _ = patch(2)
         sq = geometry.unit_square()
@@ -766,7 +777,7 @@ def run(ctx):
             float_checks.append(('Multipatch.compute_dirichlet_bcs raised', False, meta[-1][1]))
 
     # ------------------------------------------------------------ (E) initial conditions
-    nic = 80 if ctx.tier == 'quick' else 500
+    nic = 150 if ctx.tier == 'quick' else 500
     ic_cases = {}
     for t in range(nic):
         d = int(rng.integers(2, 4))
@@ -802,7 +813,9 @@ def run(ctx):
         ctx.case(req[-1]); ctx.count('ic01:side=%d' % side)
 
     # ------------------------------------------------------------ diff
+    ctx.extra['t_implementation_s'] = round(time.time() - t0, 1); t0 = time.time()
     got = ctx.model('drv_c10', req)
+    ctx.extra['t_model_s'] = round(time.time() - t0, 1); t0 = time.time()
     ndis = 0
     nshown = {}
     for r, e, g, m in zip(req, exp, got, meta):
@@ -869,7 +882,7 @@ def run(ctx):
     ctx.extra['requests'] = len(req)
 
     # ------------------------------------------------------------ direct oracle runs (model-free)
-    nor = 400 if ctx.tier == 'quick' else 3000
+    nor = 800 if ctx.tier == 'quick' else 3000
     orng = np.random.default_rng(ctx.seed + 10)
     nchecked = 0
     for i in orng.permutation(len(rls_cases))[:nor]:
@@ -928,6 +941,7 @@ def run(ctx):
             if d is not None:
                 ctx.violation('bc-oracle:ic01', d, {'input': m[1], 'oracle': d}, True)
     ctx.extra['oracle_cross_checks'] = int(nchecked)
+    ctx.extra['t_oracle_s'] = round(time.time() - t0, 1)
     ctx.extra['float_level_value_checks'] = int(nfl)
     ctx.notes.append('boundary *values* are tied exactly only as a permutation of the harness-side interpolation result; that they interpolate '
                      'the data is float-level evidence (Greville-point check on linear data, identity geometries)')
